@@ -3431,11 +3431,8 @@ impl Server {
             }).unwrap_or(false);
             
             if should_remove {
-                // Check if connection has active subscriptions before cleaning up
-                if self.pubsub.is_subscribed(id) {
-                    // Skip cleanup for connections with active subscriptions
-                    continue;
-                }
+                // A closed connection is removed together with its
+                // subscriptions (they are cleaned up below)
                 to_remove.push(id);
             }
         }
